@@ -559,3 +559,101 @@ func origins(v ssa.Value) []ssa.Value {
 	walk(v)
 	return out
 }
+
+func ptrTo(t types.Type) types.Type { return types.NewPointer(t) }
+
+// ---------- index-vector element tracking ----------
+
+// vecBase normalises a []int value: slice-of-array-literal → the array alloc.
+func vecBase(v ssa.Value) ssa.Value {
+	for {
+		switch x := v.(type) {
+		case *ssa.Slice:
+			if a, ok := x.X.(*ssa.Alloc); ok && x.Low == nil && x.High == nil {
+				return a
+			}
+			return v
+		default:
+			return v
+		}
+	}
+}
+
+// unknownVal marks "cannot determine".
+type unknownVal struct{ ssa.Value }
+
+// vecElemAt returns the possible values of element k of vector vec just before `at`.
+// An *unknownVal entry means undetermined (non-constant index store, passed to a writer, ...).
+// initial: value of a fresh vector (NewIndex(c) → c; array literal → zero) is resolved by the caller
+// through the returned `fresh` flag (the definition was reached without a store).
+func vecElemAt(eff *Effects, vec ssa.Value, k int64, at ssa.Instruction) (vals []ssa.Value, fresh bool, unknown string) {
+	base := vecBase(vec)
+	sameVec := func(v ssa.Value) bool { return vecBase(v) == base }
+	seen := map[*ssa.BasicBlock]bool{}
+	var scan func(b *ssa.BasicBlock, from int)
+	scan = func(b *ssa.BasicBlock, from int) {
+		for i := from; i >= 0; i-- {
+			ins := b.Instrs[i]
+			if v, ok := ins.(ssa.Value); ok && v == base {
+				fresh = true
+				return
+			}
+			switch x := ins.(type) {
+			case *ssa.Store:
+				if ia, ok := x.Addr.(*ssa.IndexAddr); ok && sameVec(ia.X) {
+					if c, ok := constInt(ia.Index); ok {
+						if c == k {
+							vals = append(vals, x.Val)
+							return
+						}
+					} else {
+						unknown = "store at a non-constant index"
+						return
+					}
+				}
+			case ssa.CallInstruction:
+				c := x.Common()
+				args := c.Args
+				if c.IsInvoke() {
+					args = append([]ssa.Value{c.Value}, c.Args...)
+				}
+				for j, a := range args {
+					if !sameVec(a) {
+						continue
+					}
+					if bi, ok := c.Value.(*ssa.Builtin); ok {
+						if bi.Name() == "copy" && j == 0 || bi.Name() == "append" {
+							unknown = "vector passed to " + bi.Name()
+							return
+						}
+						continue
+					}
+					mod, ext := eff.calleesOpen(x)
+					for _, cal := range mod {
+						if w := eff.Mutates(cal, j); w != nil {
+							// Apply restores loc: accepted for the data package's own Apply (documented save/restore)
+							unknown = "vector passed to " + FuncKey(cal) + " which writes it"
+							return
+						}
+					}
+					_ = ext
+				}
+			}
+		}
+		if len(b.Preds) == 0 {
+			fresh = true
+			return
+		}
+		for _, p := range b.Preds {
+			if !seen[p] {
+				seen[p] = true
+				scan(p, len(p.Instrs)-1)
+				if unknown != "" {
+					return
+				}
+			}
+		}
+	}
+	scan(at.Block(), instrIndex(at)-1)
+	return
+}
